@@ -14,6 +14,15 @@ CHECKS = {
              'symbolic ints so that value flow is decided by z3. Bounded model checking, not a proof.',
         note='Trusted: CrossHair path exhaustion, z3, the pair-list reference model. Outside: >3 (quick) / >4 (thorough) pre-state pairs, >2 operations, FastIterOrderedMultiDict.',
         ref='C01'),
+    'C02': dict(
+        technique='bounded symbolic execution (CrossHair/z3) of the real LRI/LRU methods against a recency-list model with counters: '
+                  'arbitrary reachable pre-state (symbolic capacity, key-equality pattern) + one arbitrary operation',
+        text='For LRI and LRU, with and without on_miss, capacity 1..3 and pre-states of 0..4 assignments (+ optional removal) every feasible '
+             'key-equality pattern is explored to exhaustion for each of 18 operations; contents, capacity, the three counters, on_miss calls, '
+             'the ring, and the eviction order observed through the public API (inserting fresh keys) are compared with the reference cache; '
+             'copy() is checked for equal contents/order, independence and an untouched source. Bounded model checking.',
+        note='Trusted: CrossHair path exhaustion, z3, the reference cache. Outside: max_size > 3 (quick) / 4 (thorough), longer histories.',
+        ref='C02'),
     'C17': dict(
         technique='bounded symbolic execution (CrossHair/z3) of the real OneToOne/ManyToMany/FrozenDict methods: '
                   'one arbitrary operation from an arbitrary reachable pre-state, equality pattern of keys/values decided by the solver',
